@@ -4,10 +4,11 @@
     (an unbounded number of digits) escapes, universal character names, line splicing.
     Wide characters are 32 bit (g++/Linux): the value of a wide string is the list of
     its [wchar_t] values. Not modelled ([None]): raw strings, non-ASCII characters and
-    UCNs in narrow literals (execution character set), unknown escapes (a warning),
-    and two adjacent question marks in the source: in C++11/14 (the standard the
-    generated SDK is built with) they may start a trigraph, later standards read them
-    literally, so the value would depend on the language version.
+    UCNs in narrow literals (execution character set), unknown escapes (a warning).
+    [lex_cpp_string] is the lexer WITHOUT trigraph replacement (C++17 and later; also
+    g++ in its default gnu++ mode); [lex_cpp11_string] first performs translation phase 1
+    of C++11/14, the replacement of the nine trigraph sequences -- the generated SDK is
+    built as C++11 with extensions off, where g++ does replace them.
     [lex_cpp_wchar] also reads the expression [static_cast<wchar_t>(0x....)] that
     [wchar_literal] emits for surrogates. Executable definitions only. *)
 From Coq Require Import List NArith Bool.
@@ -56,7 +57,7 @@ Definition cpp_step (wide : bool) (q : N) (st : cpp_state) (c : N) : option (cpp
       else if c =? q then Some (CBody, []) else None
   | CPrefix => if c =? q then Some (CBody, []) else None
   | CBody => cpp_body_char wide q c
-  | CQ => if c =? 63 then None else cpp_body_char wide q c
+  | CQ => cpp_body_char wide q c
   | CEsc =>
       match cpp_simple_escape c with
       | Some v => Some (if c =? 63 then CQ else CBody, [v])
@@ -111,6 +112,32 @@ Definition lex_cpp_string (wide : bool) (l : text) : option text :=
   | Some (CBetween, v) => Some v
   | _ => None
   end.
+
+(** Translation phase 1 of C++11/14 ([lex.trigraph]). *)
+Definition trigraph (c : N) : option N :=
+  if c =? 61 then Some 35 else if c =? 47 then Some 92 else if c =? 39 then Some 94
+  else if c =? 40 then Some 91 else if c =? 41 then Some 93 else if c =? 33 then Some 124
+  else if c =? 60 then Some 123 else if c =? 62 then Some 125 else if c =? 45 then Some 126
+  else None.
+
+Fixpoint replace_trigraphs (t : text) : text :=
+  match t with
+  | [] => []
+  | x :: r =>
+      match r with
+      | y :: c :: r' =>
+          if (x =? 63) && (y =? 63) then
+            match trigraph c with
+            | Some v => v :: replace_trigraphs r'
+            | None => x :: replace_trigraphs r
+            end
+          else x :: replace_trigraphs r
+      | _ => x :: replace_trigraphs r
+      end
+  end.
+
+Definition lex_cpp11_string (wide : bool) (l : text) : option text :=
+  lex_cpp_string wide (replace_trigraphs l).
 
 (** Hexadecimal integer literal body: digits up to the closing parenthesis. *)
 Fixpoint hex_int (seen : bool) (acc : N) (t : text) : option N :=
